@@ -173,17 +173,17 @@ func opName(call *ssa.Call) string {
 }
 
 var storeWriters = map[string]string{
-	"(*core.blockChain).saveBlockByHash":       "insertBlock bracket",
-	"(*core.blockChain).saveBlockByHeight":     "insertBlock bracket",
-	"(*core.blockChain).updateLastBlock":       "insertBlock bracket (head pointer)",
-	"(*core.blockChain).updateVerifyHash":      "insertBlock bracket",
-	"(*core.blockChain).markAddBlock":          "intent mark",
-	"(*core.blockChain).eraseAddBlockMark":     "intent mark",
-	"(*core.blockChain).markRemoveBlock":       "intent mark",
-	"(*core.blockChain).eraseRemoveBlockMark":  "intent mark",
-	"(*core.blockChain).remove":                "remove bracket",
-	"(*core.blockChain).insertGenesisBlock":    "genesis",
-	"core.initBlockChain":                      "start-up (loads the head)",
+	"(*core.blockChain).saveBlockByHash":      "insertBlock bracket",
+	"(*core.blockChain).saveBlockByHeight":    "insertBlock bracket",
+	"(*core.blockChain).updateLastBlock":      "insertBlock bracket (head pointer)",
+	"(*core.blockChain).updateVerifyHash":     "insertBlock bracket",
+	"(*core.blockChain).markAddBlock":         "intent mark",
+	"(*core.blockChain).eraseAddBlockMark":    "intent mark",
+	"(*core.blockChain).markRemoveBlock":      "intent mark",
+	"(*core.blockChain).eraseRemoveBlockMark": "intent mark",
+	"(*core.blockChain).remove":               "remove bracket",
+	"(*core.blockChain).insertGenesisBlock":   "genesis",
+	"core.initBlockChain":                     "start-up (loads the head)",
 }
 
 // who may call the bracketed writers
